@@ -339,6 +339,20 @@ def _loads(node, name, into_nested=True):
 def inline_new_temporaries(fnode, base_names, stats):
   """Forward-substitute locals that the reference tree does not know (temporaries
   introduced by splitting an expression) into their uses."""
+  # aliases of nested functions:  run = _helper  (bound once)  ->  the uses name the nested function itself
+  nested_names = set(n.name for n in own_nodes(fnode) if isinstance(n, (ast.FunctionDef, ast.AsyncFunctionDef)))
+  for b in _blocks(fnode):
+    for st in list(b):
+      if isinstance(st, ast.Assign) and len(st.targets) == 1 and isinstance(st.targets[0], ast.Name) and isinstance(st.value, ast.Name) and st.value.id in nested_names:
+        alias = st.targets[0].id
+        stores = [n for n in ast.walk(fnode) if isinstance(n, ast.Name) and n.id == alias and isinstance(n.ctx, ast.Store)]
+        if len(stores) == 1 and alias not in nested_names:
+          for u in _loads(fnode, alias):
+            u.id = st.value.id
+          b.remove(st)
+          if not b:
+            b.append(ast.Pass(lineno=st.lineno, col_offset=st.col_offset))
+          stats['temps'] = stats.get('temps', 0) + 1
   for _round in range(8):
     changed = False
     params, locs = local_defs_fp(fnode)
@@ -869,6 +883,104 @@ def _expr_helper(helper):
   return None
 
 
+def reclose_partials(tree, rel, inventory, stats):
+  """functools.partial(Cls._NewHelper, a, b, ...) / partial(obj._NewHelper, ...) where _NewHelper is a private method that the
+  reference tree does not have and that is used in no other way: turned back into a nested function of the caller that
+  closes over the bound names (only names that are bound exactly once in the caller and are not loop targets are moved
+  into the closure; the other bound arguments stay arguments of the partial)."""
+  known = set(inventory.get(rel, []))
+  for c in [s for s in ast.walk(tree) if isinstance(s, ast.ClassDef)]:
+    methods = dict((m.name, m) for m in c.body if isinstance(m, (ast.FunctionDef, ast.AsyncFunctionDef)))
+    new = dict((n, m) for n, m in methods.items() if (c.name + '.' + n) not in known and n.startswith('_') and not (n.startswith('__') and n.endswith('__'))
+               and all(ast.unparse(x) == 'staticmethod' for x in m.decorator_list))
+    if not new:
+      continue
+    # every reference must be the first argument of a functools.partial call
+    uses = dict((n, []) for n in new)
+    other = set()
+    for m in methods.values():
+      for node in ast.walk(m):
+        if isinstance(node, ast.Call) and ast.unparse(node.func) in ('functools.partial', 'partial') and node.args and isinstance(node.args[0], ast.Attribute) \
+           and node.args[0].attr in new and isinstance(node.args[0].value, ast.Name):
+          uses[node.args[0].attr].append((m, node))
+    for m in methods.values():
+      for node in ast.walk(m):
+        if isinstance(node, ast.Attribute) and node.attr in new and not any(node is call.args[0] for _, call in uses[node.attr]):
+          other.add(node.attr)
+    for name, helper in list(new.items()):
+      if name in other or not uses[name] or helper.args.vararg or helper.args.kwarg or helper.args.kwonlyargs or helper.args.defaults:
+        continue
+      static = bool(helper.decorator_list)
+      hparams = [a.arg for a in helper.args.posonlyargs + helper.args.args]
+      done = 0
+      for caller, call in uses[name]:
+        recv = call.args[0].value.id
+        bound = list(call.args[1:])
+        params = list(hparams)
+        mapping = {}
+        if not static:
+          if recv in ('self', 'cls', c.name) and recv != 'self':
+            continue
+          mapping[params[0]] = ast.Name(id=recv, ctx=ast.Load())
+          params = params[1:]
+        elif recv not in ('self', 'cls', c.name):
+          continue
+        if call.keywords or len(bound) > len(params) or any(isinstance(b, ast.Starred) for b in bound):
+          continue
+        # names bound once in the caller and never loop targets
+        assigned = {}
+        for n_ in ast.walk(caller):
+          if isinstance(n_, ast.Name) and isinstance(n_.ctx, ast.Store):
+            assigned[n_.id] = assigned.get(n_.id, 0) + 1
+        loopvars = set(x.id for lp in ast.walk(caller) if isinstance(lp, (ast.For, ast.comprehension)) for x in ast.walk(lp.target) if isinstance(x, ast.Name))
+        cparams = set(a.arg for a in caller.args.posonlyargs + caller.args.args)
+        for fn_ in ast.walk(caller):
+          if isinstance(fn_, (ast.FunctionDef, ast.AsyncFunctionDef)) and fn_ is not caller and any(x is call for x in ast.walk(fn_)):
+            cparams |= set(a.arg for a in fn_.args.posonlyargs + fn_.args.args)
+        k = 0
+        while k < len(bound) and isinstance(bound[k], ast.Name) and bound[k].id not in loopvars and (assigned.get(bound[k].id, 0) == 1 or (bound[k].id in cparams and assigned.get(bound[k].id, 0) == 0)):
+          mapping[params[k]] = ast.Name(id=bound[k].id, ctx=ast.Load())
+          k += 1
+        if recv not in ('self', 'cls', c.name) and not (assigned.get(recv, 0) == 1 or (recv in cparams and assigned.get(recv, 0) == 0)):
+          continue
+        rest_params = params[k:]
+        body = [_Subst(mapping).visit(copy.deepcopy(s_)) for s_ in helper.body
+                if not (isinstance(s_, ast.Expr) and isinstance(s_.value, ast.Constant) and isinstance(s_.value.value, str))]
+        nested = ast.FunctionDef(name=name.lstrip('_') + '__c', args=ast.arguments(posonlyargs=[], args=[ast.arg(arg=p_) for p_ in rest_params], vararg=None, kwonlyargs=[], kw_defaults=[], kwarg=None, defaults=[]),
+                                 body=body or [ast.Pass()], decorator_list=[], lineno=call.lineno, col_offset=0)
+        # insert the def just before the statement that holds the partial call
+        placed = False
+        all_blocks = []
+        for n_ in ast.walk(caller):
+          for fld in ('body', 'orelse', 'finalbody'):
+            v_ = getattr(n_, fld, None)
+            if isinstance(v_, list) and v_ and isinstance(v_[0], ast.stmt):
+              all_blocks.append(v_)
+        # innermost statement list first: the one whose statement holds the call and has no nested list holding it
+        all_blocks.sort(key=lambda b_: sum(len(list(ast.walk(s_))) for s_ in b_))
+        for b in all_blocks:
+          for i, st in enumerate(b):
+            if any(x is call for x in ast.walk(st)) and not isinstance(st, (ast.FunctionDef, ast.AsyncFunctionDef)):
+              # for a loop statement the def goes in front of the loop (closure variables are not loop variables)
+              b.insert(i, nested)
+              placed = True
+              break
+          if placed:
+            break
+        if not placed:
+          continue
+        ref = ast.Name(id=nested.name, ctx=ast.Load())
+        if bound[k:]:
+          call.args = [ref] + bound[k:]
+        else:
+          _replace_node(caller, call, ref)
+        ast.fix_missing_locations(caller)
+        done += 1
+        stats['reclosed'] = stats.get('reclosed', 0) + 1
+      if done == len(uses[name]):
+        c.body = [s_ for s_ in c.body if s_ is not helper] or [ast.Pass()]
+
+
 def inline_new_helpers(tree, rel, inventory, stats):
   """Inline private helpers that are not part of the reference inventory (module level
   functions and methods of the classes of this module)."""
@@ -1072,6 +1184,10 @@ def normalize_module(tree, rel, stats=None):
     strip_logging(tree, stats)
   except Exception as e:
     stats['log_error'] = repr(e)
+  try:
+    reclose_partials(tree, rel, b.get('inventory', {}), stats)
+  except Exception as e:
+    stats['reclose_error'] = repr(e)
   try:
     inline_new_helpers(tree, rel, b.get('inventory', {}), stats)
   except Exception as e:   # normalisation must never break the analysis
